@@ -55,6 +55,31 @@ def run(tier, replay=None):
     out.sample({"kind": "fold", "op": fcases[0]["op"], "pairs": fcases[0]["pairs"][:3]})
     out.sample({"kind": "fold-random", "op": fcases[-1]["op"], "pairs": fcases[-1]["pairs"][:3]})
 
+    # ---- constant folding as the analysis applies it (operator table, immediate forms, the zero-register short cuts):
+    # one-instruction programs from Gen_FoldProg, the claims of the value analysis judged by the reference machine
+    if not replay or (cases and cases[0].get("mode") == "foldprog"):
+        import props.execcommon as xc
+        if replay:
+            ftexts, fops = [cases[0]["text"]], [cases[0]["op"]]
+        else:
+            rf, gres = tlc_generate("Gen_FoldProg")
+            out.add_tlc(gres)
+            ext = {0, -1, 1, 2147483647, -2147483648}
+            pick = [c for i, c in enumerate(rf) if tier == "thorough" or c["op"].startswith("z:")
+                    or (c["x"] in ext and c["y"] in ext) or i % 4 == seed() % 4]
+            ftexts, fops = [c["text"] for c in pick], [c["op"] for c in pick]
+        fevs = xc.observe(rvh, ftexts, wd, "foldprog")
+        fv, ress = validate_chunks("Trace_Exec", fevs, wd, "foldprog.chunk", chunk=150, heap="8g", timeout=3000)
+        for rr in ress:
+            out.add_tlc(rr)
+        for x in fv:
+            if x["key"].startswith("C01:"):      # a claim of the value analysis that the executed instruction refutes
+                i = x["id"] - 1
+                out.add_verdicts([{"id": x["id"], "key": "C08:fold-in-a-program:" + fops[i].replace("z:", "zero-operand:") + ":" + x["key"][4:],
+                                   "case": {"mode": "foldprog", "text": ftexts[i], "op": fops[i]}}])
+        out.cov["traces_validated_against_impl"] += len(fevs)
+        out.sample({"kind": "fold-in-a-program", "text": ftexts[0]})
+
     # ---- decoding: the whole decode table (spec -> impl), judged by the reference (impl -> spec)
     dcases, gres = tlc_generate("Gen_Decode", coverage=True)
     out.add_tlc(gres)
